@@ -22,6 +22,10 @@ Definition dec_cred (v : val) : cred :=
   | _ => CNone
   end.
 
+(* request headers of the client's choosing: ( ( key value ) ... ) *)
+Definition dec_hdrs (v : val) : list (bytes * bytes) :=
+  map (fun kv => (as_bytes (nthv 0 kv), as_bytes (nthv 1 kv))) (as_list v).
+
 Definition dec_event (v : val) : event :=
   match as_int (nthv 0 v) with
   | 0 => ESave (dec_user (VL (tl (as_list v)))) (as_bool (nthv 6 v))
@@ -31,34 +35,35 @@ Definition dec_event (v : val) : event :=
   | 4 => ERefresh (dec_tok (nthv 1 v))
   | 5 => ERtspOpen
   | 6 => ERtsp (as_nat (nthv 1 v)) (as_int (nthv 2 v)) (as_bytes (nthv 3 v)) (dec_cred (nthv 4 v))
-  | 7 => EWsOpen (as_int (nthv 1 v)) (as_bytes (nthv 2 v)) (dec_tok (nthv 3 v)) (as_nat (nthv 4 v))
+  | 7 => EWsOpen (as_int (nthv 1 v)) (as_bytes (nthv 2 v)) (dec_tok (nthv 3 v)) (as_nat (nthv 4 v)) (dec_hdrs (nthv 5 v))
   | 8 => EWsRtsp (as_nat (nthv 1 v)) (as_int (nthv 2 v)) (as_bytes (nthv 3 v))
   | 9 => EWsp (as_nat (nthv 1 v)) (as_int (nthv 2 v)) (as_bytes (nthv 3 v))
-  | 10 => EHttp (as_int (nthv 1 v)) (as_bytes (nthv 2 v)) (dec_tok (nthv 3 v)) (as_int (nthv 4 v))
+  | 10 => EHttp (as_int (nthv 1 v)) (as_bytes (nthv 2 v)) (dec_tok (nthv 3 v)) (as_int (nthv 4 v)) (dec_hdrs (nthv 5 v))
   | _ => EApi (as_int (nthv 1 v)) (dec_tok (nthv 2 v)) (dec_user (nthv 3 v)) (as_bool (nthv 4 v)) (as_bytes (nthv 5 v))
+              (dec_hdrs (nthv 6 v))
   end.
 
 (* the shape of an observation depends on the kind of event *)
 Definition enc_obs (ev : event) (o : obs) : val :=
   match ev with
   | ESave _ _ | EDel _ | ETick _ => VL [VI 0]
-  | ELogin _ _ | ERefresh _ | EApi _ _ _ _ _ => VL [VI (o_code o)]
+  | ELogin _ _ | ERefresh _ | EApi _ _ _ _ _ _ => VL [VI (o_code o)]
   | ERtspOpen => VL [VI (o_id o)]
   | ERtsp _ _ _ _ | EWsRtsp _ _ _ => VL [VI (o_code o); vbool (o_media o); VL (map VI (o_reg o))]
-  | EWsOpen _ _ _ _ => VL [VI (o_code o); VI (o_aux o); vbool (o_media o); VI (o_id o)]
-  | EWsp _ _ _ | EHttp _ _ _ _ => VL [VI (o_code o); vbool (o_media o)]
+  | EWsOpen _ _ _ _ _ => VL [VI (o_code o); VI (o_aux o); vbool (o_media o); VI (o_id o)]
+  | EWsp _ _ _ | EHttp _ _ _ _ _ => VL [VI (o_code o); vbool (o_media o)]
   end.
 
 Definition dec_obs (ev : event) (v : val) : obs :=
   match ev with
   | ESave _ _ | EDel _ | ETick _ => ob (as_int (nthv 0 v)) 0 false 0
-  | ELogin _ _ | ERefresh _ | EApi _ _ _ _ _ => ob (as_int (nthv 0 v)) 0 false 0
+  | ELogin _ _ | ERefresh _ | EApi _ _ _ _ _ _ => ob (as_int (nthv 0 v)) 0 false 0
   | ERtspOpen => ob 0 0 false (as_int (nthv 0 v))
   | ERtsp _ _ _ _ | EWsRtsp _ _ _ =>
       {| o_code := as_int (nthv 0 v); o_aux := 0; o_media := as_bool (nthv 1 v); o_id := 0;
          o_reg := map as_int (as_list (nthv 2 v)) |}
-  | EWsOpen _ _ _ _ => ob (as_int (nthv 0 v)) (as_int (nthv 1 v)) (as_bool (nthv 2 v)) (as_int (nthv 3 v))
-  | EWsp _ _ _ | EHttp _ _ _ _ => ob (as_int (nthv 0 v)) 0 (as_bool (nthv 1 v)) 0
+  | EWsOpen _ _ _ _ _ => ob (as_int (nthv 0 v)) (as_int (nthv 1 v)) (as_bool (nthv 2 v)) (as_int (nthv 3 v))
+  | EWsp _ _ _ | EHttp _ _ _ _ _ => ob (as_int (nthv 0 v)) 0 (as_bool (nthv 1 v)) 0
   end.
 
 Definition case_users (c : val) : list user := map dec_user (as_list (nthv 0 (nthv 0 c))).
